@@ -279,6 +279,7 @@ PROFILE = {
                          ['ret', rm.tag([1])], ['raise'], ['raise', 'TypeError'], ['ret', rm.tag(True)],
                          ['ret', rm.tag('')], ['ret', {'t': 'unjson'}]],
     'disconnect_all_pct': 2,
+    'disconnect_dead_sid_pct': 8,    # disconnect('') / (0) / (unknown id): not a cause for anybody
     'world_kw_st': st.fixed_dictionaries({
         'legacy_disconnect': st.sampled_from([False, False, True, 'varargs']),
         # real timers fire late, never exactly on time: a quarter tick of lateness on every
